@@ -175,3 +175,22 @@ FS_ASSUME = ["libmy/my_fileset.c replaced by its contract with a ghost generatio
 for h in ("reload", "reload_now", "iter"):
     add("fs_" + h + "_step", ["C07", "C18"], ["tu/fileset_step.c"], "h_fileset_" + h + "_step", unwind=5, timeout=600,
         strength="B: <= 3 entries in the reader set; arbitrary handle/shared state (all histories)", functions=FS_FUNCS, assumptions=FS_ASSUME, replay="c07")
+# ---------------------------------------------------------------- C06 / C18 sorter induction steps
+SO_FUNCS = ["mtbl_sorter_add", "_mtbl_sorter_flush", "_mtbl_sorter_get_entry_batch", "_mtbl_sorter_write_chunk", "_mtbl_sorter_compare", "mtbl_sorter_iter",
+            "mtbl_sorter_write", "mtbl_sorter_destroy", "_write_temp_file_wrapper", "_collect_readers_cb", "bytes_compare", "ubuf_*"]
+SO_ASSUME = ["writer / reader / merger / iterators are recording stubs (the writer refuses non-increasing keys, C08); thread pool = synchronous delivery, destroy may deliver one in-flight result (assumed contract of mtbl/threadpool.c)",
+             "mkstemp/unlink/close/getpid/sprintf modelled with descriptor and temp-file accounting; qsort modelled by insertion sort over the caller's comparator (ISO C contract: sorted permutation)",
+             "<= 3 entries per chunk, keys <= 2 bytes (empty key and proper prefixes included), 2-byte values that identify their entry; arbitrary sorter state"]
+SO_UW = {"strlen.0": 20, "sprintf.0": 20, "mkstemp.0": 34, "unlink.0": 34, "memcpy.0": 40}
+SO_SRC = ["tu/sorter_step.c"]
+for nm, (n, lks, tier) in {"dup11": (2, "{1,1,0}", "quick"), "prefix12": (2, "{1,2,0}", "quick"), "single0": (1, "{0,0,0}", "quick"), "three": (3, "{1,1,1}", "thorough"), "mixed": (3, "{0,1,2}", "thorough")}.items():
+    add("so_chunk_" + nm, ["C06", "C18"], SO_SRC, "h_sorter_chunk_step", unwind=6, unwindset=SO_UW, timeout=1200, safety="P", tier=tier,
+        defines=[f"VG_CHUNK_N={n}", "VG_CHUNK_LKS=" + lks],
+        strength=f"B: one chunk of {n} entries with key lengths {lks} (key and value bytes symbolic: equal keys, proper prefixes, any order); merge function may fail", functions=SO_FUNCS, assumptions=SO_ASSUME, replay="c18")
+for ne in (0, 1):
+    add(f"so_add_ne{ne}", ["C06"], SO_SRC, "h_sorter_add_step", unwind=6, unwindset=SO_UW, timeout=900, defines=[f"VG_ADD_NE={ne}"],
+        strength=f"B: one mtbl_sorter_add on a sorter holding {ne} buffered entries; key length 0..2; any memory limit; iterating or not", functions=SO_FUNCS, assumptions=SO_ASSUME, replay="c06")
+    add(f"so_iter_ne{ne}", ["C06"], SO_SRC, "h_sorter_iter_step", unwind=6, unwindset=SO_UW, timeout=900, defines=[f"VG_ITER_NE={ne}"],
+        strength=f"B: mtbl_sorter_iter on a sorter with {ne} buffered entries and <= 2 chunk readers, pooled or not", functions=SO_FUNCS, assumptions=SO_ASSUME, replay="c06")
+add("so_destroy_step", ["C18"], SO_SRC, "h_sorter_destroy_step", unwind=6, timeout=600, safety="P",
+    strength="B: mtbl_sorter_destroy with <= 2 buffered entries, <= 2 readers, possibly one chunk job still in flight", functions=SO_FUNCS, assumptions=SO_ASSUME, replay="c18")
